@@ -40,6 +40,11 @@ Readings of the statement fixed here
     terminal-dependent ("broken" in the reference) and never equals a canvas cell.
   * the partial-screen mode of `start(alternate_buffer=False)` is not part of the statement's
     configurations (there the canvas is deliberately NOT the whole screen) and is not exercised.
+  * control characters in the canvas text (C0, DEL, C1) have no glyph, so the statement cannot say what
+    their own cell shows; what it does say is that every OTHER cell shows the canvas and that nothing
+    scrolls.  The canvas geometry is urwid's own: the control character occupies as many columns as
+    `str_util.calc_width` gives it (0 in UTF-8, 1 in 8-bit/EUC encodings) and the row is padded to the
+    screen width by that measure, exactly as a Text widget would render it.  Kept in a separate check.
   * attributes: the expected rendition of every attribute used here is written down by hand per colour
     depth (ATTRS below) from the palette documentation (mono entry at 1 colour, foreground/background at
     16, the *_high entries at 88/256/2**24, corners of the colour cubes only so that "nearest colour" is
@@ -421,7 +426,7 @@ def run_history(cfg, ops):
                 return v
             except Exception as e:  # noqa: BLE001
                 bad = {"why": f"draw_screen raised {type(e).__name__}: {e}", "sig": f"raised:{type(e).__name__}", "step": i}
-                for k in ("paint", "cursor", "scroll", "incr"):
+                for k in ("paint", "cursor", "scroll") + (("incr",) if len(ops) > 1 else ()):
                     v[k] = v[k] or bad
                 return v
             v["bytes"].append(new.decode("latin-1"))
@@ -639,8 +644,8 @@ def gen_histories(tier, seed):
         al = [[ch, aid] for ch, aid in alpha if encodable(ch, enc)]
         for cols, rows in tiny:
             rws = list(all_rows(cols, al))
-            if len(rws) ** rows > (400 if quick else 6000):
-                combos = [tuple(r.choice(rws) for _ in range(rows)) for _ in range(400 if quick else 6000)]
+            if len(rws) ** rows > (400 if quick else 3000):
+                combos = [tuple(r.choice(rws) for _ in range(rows)) for _ in range(400 if quick else 3000)]
             else:
                 combos = itertools.product(rws, repeat=rows)
             for combo in combos:
@@ -691,7 +696,7 @@ def gen_histories(tier, seed):
             yield "C-frame-pairs", cfg, [{"op": "draw", "frame": f1}, *mid, {"op": "draw", "frame": c2}]
 
     # D. seeded random histories up to 6x3, <= 3 draws, all configurations in turn
-    n = 2500 if quick else 60000
+    n = 6000 if quick else 60000
     for i in range(n):
         cfg = all_cfgs[i % len(all_cfgs)]
         yield "D-random-histories", cfg, random_history(r, cfg[2])
